@@ -1062,6 +1062,41 @@ pub fn c15(tier: &str, seed: u64) -> Vec<Case> {
     }
     v.push(live_pair());
     v.push(live_late_joiner());
+    // a peer that leaves says goodbye with the cache-flush bit (what `remove_service_from_discovery` sends: the same
+    // records, `to_cache_flush_record`): through the discovery pipeline (wire, parse, filter, into_owned, store) the
+    // instance is gone from the known services a little more than a second later, in both flavours
+    {
+        let inst = InstanceInformation::new("leaver".to_string()).with_ip_address(IpAddr::V4(Ipv4Addr::new(10, 7, 7, 7))).with_port(8300);
+        let full = Name::new("leaver._verif._tcp.local").unwrap().into_owned();
+        let recs = inst.clone().into_records(&full, 4500).unwrap();
+        let mut hello = Packet::new_reply(0);
+        for rec in &recs { hello.answers.push(rec.clone()); }
+        let mut bye = Packet::new_reply(0);
+        for rec in &recs { bye.answers.push(rec.to_cache_flush_record()); }
+        let (hw, bw) = (hello.build_bytes_vec_compressed().unwrap(), bye.build_bytes_vec_compressed().unwrap());
+        let mk_store = || { let mut st: ResourceRecordManager<'static> = ResourceRecordManager::new(); st.add_authoritative_resource(ResourceRecord::new(service.clone(), CLASS::IN, 0, RData::PTR(PTR(own.clone())))); st };
+        let mut st_sync = mk_store();
+        let mut st_async = mk_store();
+        let mut ch = None;
+        sync_add_response_to_resources(Packet::parse(&hw).unwrap(), &service, &own, &mut st_sync, &mut ch);
+        sync_add_response_to_resources(Packet::parse(&bw).unwrap(), &service, &own, &mut st_sync, &mut ch);
+        {
+            let rt = tokio::runtime::Builder::new_current_thread().build().unwrap();
+            rt.block_on(async {
+                let mut ch = None;
+                simple_mdns::verif::async_add_response_to_resources(Packet::parse(&hw).unwrap(), &service, &own, &mut st_async, &mut ch).await;
+                simple_mdns::verif::async_add_response_to_resources(Packet::parse(&bw).unwrap(), &service, &own, &mut st_async, &mut ch).await;
+            });
+        }
+        let known = |st: &ResourceRecordManager<'static>| -> usize { st.get_domain_resources(&service, DomainResourceFilter::cached()).filter_map(|rs| instance_from_records(&service, rs)).filter(|i| i.unescaped_instance_name() == "leaver").count() };
+        let at_once = (known(&st_sync), known(&st_async));
+        std::thread::sleep(std::time::Duration::from_millis(1300));
+        let later = (known(&st_sync), known(&st_async));
+        let mut c = Case::oracle_only().tag("goodbye-with-cache-flush");
+        if at_once != (1, 1) { c = c.fail("discovery-differs", format!("right after the goodbye (cache-flush records live one more second) the instance is known {} / {} times (sync / tokio)", at_once.0, at_once.1)); }
+        if later != (0, 0) { c = c.fail("goodbye-ignored", format!("1.3 s after a goodbye with the cache-flush bit the instance is still known (sync {}, tokio {})", later.0, later.1)); }
+        v.push(c);
+    }
     // escaping then unescaping an instance name returns the original
     for _ in 0..(if thorough { 20000 } else { 2000 }) {
         let len = r.below(10) as usize;
